@@ -217,6 +217,10 @@ type Rule struct {
 	Report   string // report template; default: the group name
 	// Locals is placed at the top of the group function's body (local constant declarations, local macro functions)
 	Locals string
+	// Comment: the pattern is a regexp for m.MatchComment
+	Comment bool
+	// Do, when set, is the name of a func(*dsl.DoContext) that replaces Report()
+	Do string
 }
 
 const RulesHeader = "package gorules\n\nimport (\n\t\"github.com/quasilyte/go-ruleguard/dsl\"\n\t\"github.com/quasilyte/go-ruleguard/dsl/types\"\n)\n\nvar _ = types.Identical\n\n"
@@ -231,7 +235,11 @@ func RulesFile(prelude string, rules []Rule) string {
 		if r.Locals != "" {
 			sb.WriteString(r.Locals)
 		}
-		fmt.Fprintf(&sb, "\tm.Match(`%s`)", r.Pattern)
+		if r.Comment {
+			fmt.Fprintf(&sb, "\tm.MatchComment(`%s`)", r.Pattern)
+		} else {
+			fmt.Fprintf(&sb, "\tm.Match(`%s`)", r.Pattern)
+		}
 		w := r.WhereSrc
 		if w == "" && r.Where != nil {
 			w = r.Where.Go()
@@ -242,6 +250,10 @@ func RulesFile(prelude string, rules []Rule) string {
 		rep := r.Report
 		if rep == "" {
 			rep = r.Name
+		}
+		if r.Do != "" {
+			fmt.Fprintf(&sb, ".\n\t\tDo(%s)%s\n}\n", r.Do, r.Extra)
+			continue
 		}
 		fmt.Fprintf(&sb, ".\n\t\tReport(`%s`)%s\n}\n", rep, r.Extra)
 	}
